@@ -19,6 +19,7 @@ type calleeEnv struct {
 	fc     *FuncContract
 	params map[string]SV
 	lets   map[string]SV
+	fn     *ssa.Function
 }
 
 type specCtx struct {
@@ -27,6 +28,7 @@ type specCtx struct {
 	ghosts   []ghostVal
 	callee   *calleeEnv
 	oldState *State
+	headState *State // loop-head state for athead(e)
 	bound    map[string]Term
 	inOld    bool
 }
@@ -130,6 +132,23 @@ func (ex *Exec) lookupIdent(st *State, name string, ctx *specCtx) SV {
 	for _, g := range ctx.ghosts {
 		if g.name == name {
 			return g.sv
+		}
+	}
+	// named results of the function whose contract is being interpreted
+	if len(ctx.results) > 0 {
+		var sigFn *ssa.Function
+		if ctx.callee != nil {
+			sigFn = ctx.callee.fn
+		} else {
+			sigFn = ex.fn
+		}
+		if sigFn != nil {
+			rs := sigFn.Signature.Results()
+			for i := 0; i < rs.Len() && i < len(ctx.results); i++ {
+				if rs.At(i).Name() == name && name != "" && name != "_" {
+					return ctx.results[i]
+				}
+			}
 		}
 	}
 	if name == "result" || name == "result0" {
@@ -413,6 +432,46 @@ func (ex *Exec) specCall(st *State, v *ast.CallExpr, ctx *specCtx) SV {
 		n := *ctx
 		n.inOld = true
 		return ex.spec(os, arg(0), &n)
+	case "athead":
+		nargs(1)
+		if ctx.headState == nil {
+			ex.specFail("athead used outside a loop back edge")
+		}
+		return ex.spec(ctx.headState, arg(0), ctx)
+	case "mem":
+		nargs(1)
+		x := ex.spec(st, arg(0), ctx)
+		if x.K != KSlice || x.Elem != "byte" {
+			ex.specFail("mem of %s", exprString(arg(0)))
+		}
+		return Scalar(Select(st.heap["BMem"], x.Ref))
+	case "bsubSplit":
+		// instance of: a,b >= 0 ==> bsub(x,o,a+b) == bcat(bsub(x,o,a), bsub(x,o+a,b))
+		nargs(4)
+		x, o, a, b := ex.specTerm(st, arg(0), ctx), ex.specTerm(st, arg(1), ctx), ex.specTerm(st, arg(2), ctx), ex.specTerm(st, arg(3), ctx)
+		return Scalar(Implies(And(Ge(a, IntLit(0)), Ge(b, IntLit(0))), Eq(App(SBytes, "f_bsub", x, o, Add(a, b)),
+			App(SBytes, "f_bcat", App(SBytes, "f_bsub", x, o, a), App(SBytes, "f_bsub", x, Add(o, a), b)))))
+	case "bsubNest":
+		// instance of: 0<=o2, 0<=l2, o2+l2<=l ==> bsub(bsub(x,o,l),o2,l2) == bsub(x,o+o2,l2)
+		nargs(5)
+		x, o, l, o2, l2 := ex.specTerm(st, arg(0), ctx), ex.specTerm(st, arg(1), ctx), ex.specTerm(st, arg(2), ctx), ex.specTerm(st, arg(3), ctx), ex.specTerm(st, arg(4), ctx)
+		return Scalar(Implies(And(Ge(o2, IntLit(0)), Ge(l2, IntLit(0)), Le(Add(o2, l2), l)),
+			Eq(App(SBytes, "f_bsub", App(SBytes, "f_bsub", x, o, l), o2, l2), App(SBytes, "f_bsub", x, Add(o, o2), l2))))
+	case "bsubFull":
+		// instance of: n == blen(x) ==> bsub(x,0,n) == x
+		nargs(2)
+		x, n := ex.specTerm(st, arg(0), ctx), ex.specTerm(st, arg(1), ctx)
+		return Scalar(Implies(Eq(n, App(SInt, "f_blen", x)), Eq(App(SBytes, "f_bsub", x, IntLit(0), n), x)))
+	case "rsegSplit":
+		// instance of: a,b >= 0 ==> rseg(r,p,a+b) == bcat(rseg(r,p,a), rseg(r,p+a,b))
+		nargs(4)
+		r, pp, a, b := ex.specTerm(st, arg(0), ctx), ex.specTerm(st, arg(1), ctx), ex.specTerm(st, arg(2), ctx), ex.specTerm(st, arg(3), ctx)
+		return Scalar(Implies(And(Ge(a, IntLit(0)), Ge(b, IntLit(0))), Eq(App(SBytes, "f_rseg", r, pp, Add(a, b)),
+			App(SBytes, "f_bcat", App(SBytes, "f_rseg", r, pp, a), App(SBytes, "f_rseg", r, Add(pp, a), b)))))
+	case "max0":
+		nargs(1)
+		x := ex.specTerm(st, arg(0), ctx)
+		return Scalar(Ite(Ge(x, IntLit(0)), x, IntLit(0)))
 	case "forall", "exists":
 		nargs(4)
 		id, ok := arg(0).(*ast.Ident)
